@@ -141,6 +141,30 @@ func (ex *Exec) solveOne(o *Obligation, dir string, id string, timeoutS int, tho
 		res.Status, res.Solver = "unsat", "trivial"
 		return res
 	}
+	if o.Cover {
+		// vacuity query: short; quantified assumptions are dropped on the second attempt
+		// (unsat of the weaker set still proves vacuity, sat of it is reported as inconclusive-sat)
+		st, out, _ := runSolver(context.Background(), solvers[0], script, dir, id, 2)
+		res.Outputs[solvers[0].name] = trimOut(out)
+		if st != "sat" && st != "unsat" {
+			relaxed := *o
+			relaxed.Lines = nil
+			for _, l := range o.Lines {
+				if !strings.Contains(l, "(forall ") && !strings.Contains(l, "(exists ") {
+					relaxed.Lines = append(relaxed.Lines, l)
+				}
+			}
+			st2, out2, _ := runSolver(context.Background(), solvers[0], ex.script(&relaxed, false), dir, id+"r", 2)
+			res.Outputs["z3-new(relaxed)"] = trimOut(out2)
+			if st2 == "unsat" {
+				st = "unsat"
+			} else if st2 == "sat" {
+				st = "sat-relaxed"
+			}
+		}
+		res.Status, res.Solver, res.Seconds = st, solvers[0].name, time.Since(t0).Seconds()
+		return res
+	}
 	// stage 1
 	fast := 2
 	if timeoutS < fast {
